@@ -3,22 +3,37 @@
    interpreter: the claim for arbitrary text rests on the exploration
    (tools/props/c08.py).  What is proved here concerns only the modelled
    arithmetic cores (Overflow/Model.v): proof (partial). *)
-From Coq Require Import ZArith List.
+From Coq Require Import ZArith List PrimFloat.
 From NV Require Import Overflow.Model Overflow.Proofs.
+Set Warnings "-inexact-float".
 Import ListNotations.
 Local Open Scope Z_scope.
 
-(* On the checked path (DType::try_power with Ratio::checked_mul) an exponent
-   overflow is a `None` (reported as an error), exactly where the unchecked path
-   (DType::power with `*`) panics; otherwise both return the same exponents. *)
-Theorem C08_checked_paths_total : forall fs n,
-  (dpower fs n = Panic <-> dtry_power fs n = None) /\
-  (forall r, dpower fs n = Val r <-> dtry_power fs n = Some r).
-Proof. exact dtry_power_iff. Qed.
+(* Totality of the checked paths: DType::try_power (Ratio::checked_mul) and
+   DType::try_multiply / try_canonicalize (Ratio::checked_add) never panic,
+   whatever the factors and exponents. *)
+Theorem C08_checked_paths_total : forall fs gs n,
+  dtry_power fs n <> Panic /\ dtry_multiply fs gs <> Panic.
+Proof. exact checked_paths_never_panic. Qed.
 Print Assumptions C08_checked_paths_total.
 
+(* The unchecked DType::power panics exactly where try_power reports an overflow,
+   and otherwise returns the same exponents; DType::multiply is try_multiply + expect. *)
+Theorem C08_unchecked_is_checked_plus_panic : forall fs gs n,
+  dpower fs n = expect (dtry_power fs n) /\ dmultiply fs gs = expect (dtry_multiply fs gs).
+Proof. intros. split; [apply dpower_expect|apply dmultiply_expect]. Qed.
+Print Assumptions C08_unchecked_is_checked_plus_panic.
+
+(* The same for single exponents: `*` vs checked_mul (always), `+` vs checked_add
+   (operands in range with positive denominators). *)
+Theorem C08_ratio_ops : forall x y,
+  rmul x y = expect (rmul_checked x y) /\
+  (wf_ratio x -> wf_ratio y -> radd x y = expect (radd_checked x y)).
+Proof. intros. split; [apply rmul_expect|apply radd_expect]. Qed.
+Print Assumptions C08_ratio_ops.
+
 Theorem C08_checked_mul_in_range : forall x y n d,
-  rmul_checked x y = Some (n, d) -> fits n = true /\ fits d = true.
+  rmul_checked x y = Val (n, d) -> fits n = true /\ fits d = true.
 Proof. exact rmul_checked_fits. Qed.
 Print Assumptions C08_checked_mul_in_range.
 
@@ -28,14 +43,27 @@ Theorem C08_factorial_terminates : forall x order, 1 <= order -> 0 <= x ->
 Proof. exact factorial_order_ge1. Qed.
 Print Assumptions C08_factorial_terminates.
 
-(* the unchecked paths do panic: exponent product 1e30 * 1e30 (input
-   `((m/cm)^1e30)^1e30`), exponent sum 2^126 + 2^126 (input
-   `fn f(x) = x^(2^126) * x^(2^126)`) *)
+(* Kernel-computed witnesses, one per open arithmetic finding:
+   ((m/cm)^1e30)^1e30                       UnitFactor::power, 1e30 * 1e30
+   fn f(x) = x^(2^126) * x^(2^126)          DType::power in a substitution, 2 * 2^126
+   dimension Z = Length^(2^126) * Length^(2^126)   merge of equal factors, 2^126 + 2^126
+   m^(1/2^100) + m^(1/3^70)                 lcm of the denominators (while rendering the error)
+   and in each case the checked operation reports an overflow instead. *)
 Theorem C08_power_overflow_refuted :
-  (exists x y, fits (fst x) = true /\ fits (fst y) = true /\ rmul x y = Panic) /\
-  (exists x y, fits (fst x) = true /\ fits (fst y) = true /\ radd_same x y = Panic).
-Proof. split; [exact rmul_refuted|exact radd_refuted]. Qed.
+  (upower [(0%nat, (10 ^ 30, 1)); (1%nat, (- 10 ^ 30, 1))] (10 ^ 30, 1) = Panic
+   /\ rmul_checked (10 ^ 30, 1) (10 ^ 30, 1) = Overflow) /\
+  (dpower [(0%nat, (2 ^ 126, 1))] (2, 1) = Panic /\ dtry_power [(0%nat, (2 ^ 126, 1))] (2, 1) = Overflow) /\
+  (pmultiply [(0%nat, (2 ^ 126, 1))] [(0%nat, (2 ^ 126, 1))] = Panic
+   /\ dtry_multiply [(0%nat, (2 ^ 126, 1))] [(0%nat, (2 ^ 126, 1))] = Overflow
+   /\ dmultiply [(0%nat, (2 ^ 126, 1))] [(0%nat, (2 ^ 126, 1))] = Panic).
+Proof. split; [exact upower_refuted|split; [exact dpower_refuted|exact pmultiply_refuted]]. Qed.
 Print Assumptions C08_power_overflow_refuted.
+
+Theorem C08_lcm_overflow_refuted :
+  radd (1, 2 ^ 100) (-1, 3 ^ 70) = Panic /\ radd_checked (1, 2 ^ 100) (-1, 3 ^ 70) = Overflow
+  /\ wf_ratio (1, 2 ^ 100) /\ wf_ratio (-1, 3 ^ 70).
+Proof. exact radd_lcm_refuted. Qed.
+Print Assumptions C08_lcm_overflow_refuted.
 
 (* 65536 `!`: `order as u16` is 0 — assertion failure in checked builds, and the
    loop does not terminate for x = 1 otherwise *)
@@ -46,8 +74,21 @@ Theorem C08_factorial_truncation_refuted :
 Proof. exact factorial_truncation_refuted. Qed.
 Print Assumptions C08_factorial_truncation_refuted.
 
+(* 1 Rm^12/m < 1 Qm^11: both conversion factors (1e30^11, 1e27^12) are +inf in f64,
+   their quotient is NaN and partial_cmp has no answer: the `expect` fires.
+   (binary64 arithmetic of the kernel's primitive floats) *)
+Theorem C08_comparison_nan_refuted :
+  cmp_after_conversion 1 1 (fpow 1e30 11) (fpow 1e27 12 / 1)%float = Panic
+  /\ PrimFloat.is_nan (fpow 1e30 11 / (fpow 1e27 12 / 1))%float = true
+  /\ cmp_after_conversion 1 1 (fpow 1e30 2) (fpow 1e27 2)%float = Val FLt.
+Proof. exact cmp_nan_refuted. Qed.
+Print Assumptions C08_comparison_nan_refuted.
+
 (* Non-vacuity *)
-Example C08_ex : rmul_checked (2, 3) (9, 4) = Some (3, 2)
-  /\ dtry_power [(0%nat, (1, 2)); (1%nat, (-3, 1))] (2, 1) = Some [(0%nat, (1, 1)); (1%nat, (-6, 1))]
+Example C08_ex : rmul_checked (2, 3) (9, 4) = Val (3, 2)
+  /\ radd (1, 2) (1, 3) = Val (5, 6) /\ radd_checked (1, 2) (1, 3) = Val (5, 6)
+  /\ dtry_power [(0%nat, (1, 2)); (1%nat, (-3, 1))] (2, 1) = Val [(0%nat, (1, 1)); (1%nat, (-6, 1))]
+  /\ dtry_multiply [(0%nat, (1, 2)); (2%nat, (1, 1))] [(0%nat, (1, 2)); (1%nat, (3, 1))]
+     = Val [(0%nat, (2, 2)); (1%nat, (3, 1)); (2%nat, (1, 1))]
   /\ factorial_dbg 5 5 2 = Val (Some 15) /\ order_u16 3 = 3.
 Proof. vm_compute. repeat split; reflexivity. Qed.
